@@ -189,7 +189,7 @@ pub fn base_plan(property: &str, profile: &str, seed: u64) -> (Plan, Swarm) {
 /// Sequential data histories with rotation, idle periods and clean restarts (C01, C02; monitors C10, C15, C07, C12).
 pub fn gen_seq(property: &str, profile: &str, seed: u64) -> Plan {
     let (mut plan, mut sw) = base_plan(property, profile, seed);
-    let n_ops = sw.rng.range(8, 60) as usize;
+    let n_ops = if profile.contains("manyversions") { sw.rng.range(20, 90) } else { sw.rng.range(8, 60) } as usize;
     let mix = if profile.contains("maint") {
         MIX_MAINT
     } else if profile.contains("filter") {
@@ -274,6 +274,20 @@ pub fn gen_seq(property: &str, profile: &str, seed: u64) -> Plan {
     let mut s = SessionPlan::sequential(ops);
     s.lazy_init = sw.rng.chance(1, 5);
     plan.sessions.push(s);
+    if profile.contains("filter") && sw.rng.chance(1, 3) {
+        // the storage is reopened with another bloom configuration (other hasher count, same or other
+        // size limits): filters read back from index files meet filters built under the new one
+        if let Some(b) = plan.store.bloom.clone() {
+            let mut alt = b.clone();
+            alt.hashers = match sw.rng.below(3) { 0 => b.hashers + 1, 1 => b.hashers.saturating_sub(1).max(1), _ => b.hashers + 2 };
+            if sw.rng.chance(1, 3) {
+                alt.max_bits = *sw.rng.pick(&[64usize, 100, 4096]);
+            }
+            if let Some(s0) = plan.sessions.first_mut() {
+                s0.bloom_alt = Some(alt);
+            }
+        }
+    }
     if profile.split('+').any(|f| f == "readfault") {
         // EIO on the n-th read of an index file (bloom bytes probed from the file after an offload,
         // on-disk index lookups): a query may fail, it must never answer "absent" for a stored key
@@ -315,7 +329,13 @@ pub fn gen_restart(property: &str, profile: &str, seed: u64) -> Plan {
         plan.store.deferred_max_ms = 300;
     }
     let sweep = profile.contains("sweep");
-    let n_ops = sw.rng.range(6, if sweep { 25 } else { 45 }) as usize;
+    // a fifth of the random runs: one record per blob and a long history, so that the directory holds
+    // well over ten blobs (two-digit ids) when it is reopened
+    let many_blobs = !sweep && sw.rng.chance(1, 5);
+    if many_blobs {
+        plan.store.max_data_in_blob = 1;
+    }
+    let n_ops = if many_blobs { sw.rng.range(30, 70) } else { sw.rng.range(6, if sweep { 25 } else { 45 }) } as usize;
     let mix = Mix { write: 50, delete: 22, idle: 6, lifecycle: 0, lifecycle_bg: 0, force: 0, free: 0, offload: 0, fsync: 0, restart: 0, clock: 0 };
     let mut ops = Vec::new();
     for i in 0..n_ops {
